@@ -66,6 +66,13 @@ def spec_delete(x, s, e, n_out):
 FUNCS = ("substitute", "insert", "delete", "multisubstitute", "randomize", "validate")
 
 
+def _alphabet(c):
+    """the alphabet handed to the code under test: ALPHA[:A], rotated by c['alpha_rot'] (a non-default ordering of the
+    same characters: a call that forgets to forward `alphabet=` then encodes string motifs differently; seed C01-r6m2)"""
+    a = list(C.ALPHA[:c["A"]]); k = c.get("alpha_rot", 0) % len(a)
+    return a[k:] + a[:k]
+
+
 def _mk_motif(spec, A, alphabet):
     import torch
     if spec["kind"] == "str":
@@ -90,7 +97,7 @@ def _replay(r):
     import torch
     from tangermeme import ersatz, utils
     A = r["A"]
-    alphabet = list(C.ALPHA[:A])
+    alphabet = _alphabet(r)
     fn = r["fn"]
     if fn == "validate":
         X = torch.tensor(r["X"], dtype=torch.int8)
@@ -223,7 +230,7 @@ def worker(cfg):
     stats = core.Stats()
     out = {"violations": [], "samples": []}
     A = cfg["A"]
-    alphabet = list(C.ALPHA[:A])
+    alphabet = _alphabet(cfg)
 
     def report(ctx, model, key, what, extra):
         r = dict(cfg)
@@ -444,6 +451,11 @@ def configs(tier):
                     for st in ("sym", "none"):
                         B = max(MBs)
                         cf.append(dict(fn="multisubstitute", A=A, L=L, B=max(B, 1), ws=list(ws_), kinds=list(kinds), MBs=list(MBs), spacing=spacing, start=st, max_paths=20000))
+    # string motifs under a non-default ordering of the default characters (every call site has to forward `alphabet=`)
+    for ws_, kinds, MBs in [((2, 1), ("ohe", "str"), (1, 1)), ((1, 1), ("str", "str"), (1, 1)), ((1,), ("str",), (1,))]:
+        cf.append(dict(fn="multisubstitute", A=4, L=5, B=1, ws=list(ws_), kinds=list(kinds), MBs=list(MBs), spacing="int", start="sym", alpha_rot=1, max_paths=20000))
+    for fn in ("substitute", "insert"):
+        cf.append(dict(fn=fn, A=4, L=3, w=2, B=1, MB=1, kind="str", alpha_rot=1))
     for shape in ([(1, 2, 1), (1, 2, 2), (1, 3, 2), (2, 2, 1)] if tier == "quick" else [(1, 2, 1), (1, 2, 2), (1, 3, 2), (2, 2, 1), (1, 3, 3), (2, 2, 2)]):
         cf.append(dict(fn="validate", A=shape[1], shape=list(shape)))
     return cf
@@ -475,7 +487,7 @@ def _shim_run(c):
     ld, _ = C.fresh_env()
     ers = ld.load("ersatz")
     A = c["A"]
-    alphabet = list(C.ALPHA[:A])
+    alphabet = _alphabet(c)
     X = C.onehot_from_chars(np.array(c["x"], dtype=object), A)
     snap = X.a.copy()
 
@@ -509,7 +521,7 @@ def _real_run(c):
     import torch
     from tangermeme import ersatz
     A = c["A"]
-    alphabet = list(C.ALPHA[:A])
+    alphabet = _alphabet(c)
     X = C.real_onehot(c["x"], A)
     X0 = X.clone()
     res = {}
